@@ -5,6 +5,7 @@
 //! file is replaced by a stub that makes every dependent theorem fail loudly, and the
 //! failure is listed in <out-dir>/translate_report.json).
 mod ir;
+mod statics;
 mod tables;
 mod tr;
 mod units;
@@ -43,6 +44,11 @@ pub enum Sel {
     ExternEnum(&'static str),
     /// register a struct that another generated module already emits
     ExternStruct(&'static str),
+    /// custom extractor over ALL files of the unit (parsed files, their repo-relative names); see statics.rs
+    CustomMulti(fn(&[File], &[String], &mut Registry, &mut String) -> Res<()>),
+    /// struct of which only the listed (translatable) fields are modelled; a function that touches
+    /// any other field does not translate
+    StructPartial(&'static str, &'static [&'static str]),
 }
 
 pub struct Unit {
@@ -418,6 +424,34 @@ fn translate_unit(repo: &Path, u: &Unit, reg: &mut Registry) -> Res<String> {
             }
             Sel::Custom(f) => {
                 f(&files[0], reg, &mut out)?;
+            }
+            Sel::CustomMulti(f) => {
+                f(&files, &file_names, reg, &mut out)?;
+            }
+            Sel::StructPartial(name, keep) => {
+                let it = find_in(&|it| matches!(it, Item::Struct(s) if s.ident == name)).ok_or(format!("struct {} not found", name))?;
+                let s = match it {
+                    Item::Struct(s) => s,
+                    _ => unreachable!(),
+                };
+                let tr = FnTr { reg, self_ty: Some(name.to_string()), ret: Ty::Unit, counter: 0, fn_prefix: String::new(), local_fns: HashMap::new(), extra_defs: vec![] };
+                let mut fields = vec![];
+                for f in &s.fields {
+                    let fname = f.ident.as_ref().ok_or("tuple struct")?.to_string();
+                    if keep.contains(&fname.as_str()) {
+                        fields.push((fname, tr.ty(&f.ty)?));
+                    }
+                }
+                if fields.len() != keep.len() {
+                    return Err(format!("struct {}: not all of the fields {:?} exist", name, keep));
+                }
+                writeln!(out, "/-- the fields {:?} of `{}` (the others are not modelled) -/", keep, name).unwrap();
+                writeln!(out, "structure {} where", name).unwrap();
+                for (f, t) in &fields {
+                    writeln!(out, "  {} : {}", lean_ident(f), t.lean()).unwrap();
+                }
+                writeln!(out, "  deriving DecidableEq, Repr\n").unwrap();
+                reg.structs.insert(name.to_string(), fields);
             }
             Sel::ConstAs(file_substr, rust_name, lean_name) => {
                 let idx = file_names.iter().position(|n| n.contains(file_substr)).ok_or(format!("no file matching {}", file_substr))?;
